@@ -61,6 +61,7 @@ class EvalModel(SymVal):
         self.part_values = part_values or {}     # id(token) -> ValName
         self.family = family                     # values of the instances / accessible worlds (list of ValName)
         self.inlined = {}
+        self.kw_seen = []                         # keyword arguments the callees under contract received (the world must be forwarded)
         order = sorted(logic.Meta.values, key=lambda v: v.value)
         self.order = [v.name for v in order]
     def sym_getattr(self, it, name):
@@ -73,6 +74,7 @@ class EvalModel(SymVal):
         if name == 'values': return ValuesV(self.logic)
         if name == 'value_of':
             def vo(it, s, **kw):
+                self.kw_seen.append(('value_of', dict(kw)))
                 if id(s) in self.part_values: return self.part_values[id(s)]
                 raise Outside('value_of on an unknown part')
             return Contract(vo, 'Model.value_of (induction hypothesis)')
@@ -81,7 +83,7 @@ class EvalModel(SymVal):
                 v = c.__dict__[name]
                 if isinstance(v, types.FunctionType) and name in self.INLINE:
                     if name in ('_unquantify_values', '_unmodal_values') and c.__module__ == 'pytableaux.models':
-                        return Contract(lambda it, s, **kw: GenList(self.family), f'BaseModel.{name} (values of the instances)')
+                        return Contract(lambda it, s, **kw: (self.kw_seen.append((name, dict(kw))), GenList(self.family))[1], f'BaseModel.{name} (values of the instances)')
                     fi = source.of_function(v); self.inlined[fi.key] = fi
                     return BoundSource(fi, v, c, self)
                 raise Outside(f'Model.{name} (no contract)')
@@ -92,7 +94,7 @@ class EvalModel(SymVal):
             if name in c.__dict__:
                 v = c.__dict__[name]
                 if name in ('_unquantify_values', '_unmodal_values') and c.__module__ == 'pytableaux.models':
-                    return Contract(lambda it, s, **kw: GenList(self.family), f'BaseModel.{name} (values of the instances)')
+                    return Contract(lambda it, s, **kw: (self.kw_seen.append((name, dict(kw))), GenList(self.family))[1], f'BaseModel.{name} (values of the instances)')
                 if isinstance(v, types.FunctionType) and name in self.INLINE:
                     fi = source.of_function(v); self.inlined[fi.key] = fi
                     return BoundSource(fi, v, c, self)
